@@ -163,6 +163,11 @@ def _mirsym():
         "ColumnBuffer append sequences (ints / floats / nulls, with and without incoming null maps, starting empty or as null(k)): length, one slot per row, value per row, NULL exactly where no value was supplied, int+float degrades to float",
         cbfns, bounds="quick: start in {default, null(1), null(8)}, <= 2 appends from {ints(1), ints(2,map), nulls(1), nulls(7), floats(1), floats(2,map)} + 4 three-step sequences; thorough: + null(7|9|17), <= 3 appends incl. 9-row maps; all values and null-map bytes symbolic",
         spec=sc.ColBufSpec())
+    add("C01.g/colbuf_mixed", "C01", "mirsym", Q,
+        "ColumnBuffer::push_val sequences over {int, float, string, NULL} followed by finalize: the column handed to the column builders has one slot per row, is of the documented common type (int+float -> float, anything+string -> string), string rows keep their bytes at their own row and rows without a value are NULL",
+        cbfns + ["mem_store::column_buffer::{StringColBuffer,MixedColBuffer}::{push,finalize}", "stringpack::IndexedPackedStrings::{push,iter}"],
+        bounds="every sequence of 1-2 pushes and every 3-push sequence containing a string (quick) / all sequences up to 4 pushes (thorough); float bits and the string byte symbolic, ints concrete; the column builders (fast_build_string_column, IntegerColumn::new_boxed, FloatColumn::new_boxed, Column::null) are stubbed as recorders; number-to-string rendering not modelled",
+        spec=sc.MixedFinalizeSpec(), stubs=["fast_build_string_column / IntegerColumn::new_boxed / FloatColumn::new_boxed / Column::null -> recorders", "ToString for numbers -> opaque"])
     add("C07.a/colbuf_compaction", "C07", "mirsym", Q,
         "the append sequences InnerLocustDB::compact performs on a fresh ColumnBuffer (one push per partition: non-nullable, nullable with its null map, all-NULL): NULL rows of every part stay NULL, values stay values",
         cbfns, bounds="quick: 1-2 parts of 1-2 rows from {ints, ints+map, nulls, floats+map, floats}; thorough: up to 3 parts incl. 9-row parts; values and null maps symbolic",
